@@ -77,3 +77,40 @@ package reverse
 //@       as(ghost.cm_val[arr(c.results)][str(id)], *resultMap).results[k] == old(as(ghost.cm_val[arr(c.results)][str(id)], *resultMap).results[k]))
 //@   ensures [whole_batch_is_consumed] forall(j, 0, len(results), ghost.cm_has[arr(c.results)][str(id)] ==>
 //@       !haskey(as(ghost.cm_val[arr(c.results)][str(id)], *resultMap).results, ival(results[j][0])))
+
+// InvokeContext: a reverse call. The call is registered (under a number no pending call uses:
+// SetIfAbsent's contract) before the provider can see it, and the caller can always be woken by
+// its context as well as by its own result channel (C10).
+//@ func (*callCache).Append
+//@ func (*callCache).Delete
+//@ func (*Caller).response
+//@   havoc
+//@   modifies ghost.*
+//@ func (returnValue).Value
+//@   havoc
+
+//@ func (*Caller).InvokeContext
+//@   prop C09 C10
+//@   havoc
+//@   flag typeassert=panic
+//@   requires c != nil
+//@   requires forall(s, ghost.cm_has[arr(c.results)][s] ==> ival(ghost.cm_val[arr(c.results)][s]) != 0 &&
+//@       as(ghost.cm_val[arr(c.results)][s], *resultMap).results != nil)
+//@   requires forall(s, ghost.cm_has[arr(c.calls)][s] ==> ival(ghost.cm_val[arr(c.calls)][s]) != 0)
+//@   modifies ghost.*
+//@   loop 1 invariant 0 <= index && index < 2147483648
+//@   atcall Append [registered_before_the_provider_can_see_it] haskey(results.results, index)
+//@   ensures [timed_out_call_leaves_no_registration] result1 == core.ErrTimeout ==> !haskey(results.results, index)
+
+//@ rule select_arms (*Caller).InvokeContext done=1 prop=C10
+
+// Provider side: one goroutine per call of a batch; nothing a peer sends may end the process (C11).
+//@ func (call).Value
+//@   flag typeassert=panic
+//@ func (*Provider).process
+//@   prop C11
+//@   nopanic
+//@   havoc
+//@   flag typeassert=panic
+//@   modifies ghost.*
+//@   ensures [answers_under_the_number_of_the_call] typeis(c[0], int) ==> typeis(rv[0], int) && ival(rv[0]) == ival(c[0])
